@@ -204,6 +204,11 @@ func (e *env) codecJobs(variant string, width int, units []unit, pick func(i int
 						return
 					case o.Refused != "":
 						ev.Fatal("server refused %s: %s", c.Desc, o.Refused)
+					case sc.DstStep > 0 && o.Status == "stuck: "+drv.StShortWrite:
+						// the decoder wants more free destination space than this buffer size offers (std/lzma: 274 bytes
+						// before a match): a minimum-buffer demand is C03's territory, the size does not apply to this decoder
+						l.h("streaming_size_not_applicable(decoder wants a larger destination)", fmt.Sprintf("%s:%d", c.Pkg, sc.DstStep))
+						return
 					case o.Status != "":
 						fail("status:"+o.Status, fmt.Sprintf("final status %q after %d calls, %d output bytes", o.Status, o.Calls, o.OutLen))
 						return
